@@ -51,7 +51,7 @@ Lemma included_admitted e s t o :
 Proof.
   unfold deliver.
   set (w := admit_reason e (aget 0 (s_bal s) (t_from t)) (aget None (s_nonce s) (t_from t)) (s_bgas s) t).
-  destruct ((w =? 2) || (w =? 10)); [simpl; discriminate|].
+  destruct (w =? 2); [simpl; discriminate|].
   destruct (w =? 0) eqn:E; [intros _; apply Z.eqb_eq; exact E|simpl; discriminate].
 Qed.
 
